@@ -22,6 +22,9 @@ for sid, checks in sorted(res.items()):
         meta['history'] = notes[sid]
     json.dump(meta, open(mp, 'w'), indent=1)
     own = [c for c in checks if c['check'] == meta['property']]
+    other = os.path.join(V, 'seeded', sid, 'check')          # reported by another property's check (named in that file)
+    if os.path.exists(other) and not (own and own[0]['exit'] == 1):
+        own = [c for c in checks if c['check'] == open(other).read().strip()] or own
     ok = own and own[0]['exit'] == 1
     bad += not ok
     print(sid, 'detected' if ok else 'MISSED', own[0]['first_signature'] if own else '')
